@@ -1,9 +1,156 @@
 import Lean.Data.Json
-/-! Line-protocol handler for property C11 (model side of the correspondence). -/
-namespace Drv.C11
-open Lean
+import SpoxModel.Model.Emit
+import SpoxModel.Model.Conform
+/-! Line-protocol handler for C11 (model side of the correspondence).
 
-/-- One request (a JSON value) in, one response (a JSON value) out. -/
-def handle (_req : Json) : Json := Json.mkObj [("error", "unimplemented")]
+`{"kind":"emit", …}`  : run `Emit.emitNode` on an explicit node instance (field kinds, presence,
+                         minima) — compared with `Node.to_onnx` of the real node.
+`{"kind":"call", …}`  : run the constructor-call model (`Conform.callAttrs`, `Conform.callInputs`,
+                         then `Emit.emitNode`) on a constructor description and a set of supplied
+                         arguments — compared with the NodeProto the real constructor produces. -/
+namespace Drv.C11
+open Lean Emit Conform
+
+def parseArg (j : Json) : Except String (Arg String) := do
+  let k ← j.getObjValAs? String "k"
+  match k with
+  | "s" => return .single (← j.getObjValAs? String "v")
+  | "o" => match j.getObjVal? "v" with
+    | .ok (Json.str s) => return .opt (some s)
+    | _ => return .opt none
+  | "v" => return .variadic (← j.getObjValAs? (List String) "v")
+  | _ => throw "bad arg kind"
+
+def parseAttr (j : Json) : Except String (Option (String × String)) :=
+  match j with
+  | Json.null => return none
+  | Json.arr #[Json.str n, Json.str v] => return some (n, v)
+  | _ => throw "bad attr"
+
+def slotsJson (l : List (Option String)) : Json := toJson (l.map fun x => x.getD "")
+
+def nodeJson (n : NodeOut String String) (req : String × Nat) : Json :=
+  Json.mkObj [("op", n.opType), ("domain", n.domain), ("inputs", slotsJson n.inputs),
+    ("outputs", slotsJson n.outputs),
+    ("attrs", toJson (n.attrs.map fun a => [a.1, a.2])),
+    ("opset", Json.arr #[req.1, req.2])]
+
+def parseMins (req : Json) : Option (Nat × Nat) :=
+  match req.getObjValAs? (List Nat) "mins" with
+  | .ok [i, o] => some (i, o)
+  | _ => none
+
+def handleEmit (req : Json) : Except String Json := do
+  let ins ← (← req.getObjValAs? (List Json) "inputs").mapM parseArg
+  let outs ← (← req.getObjValAs? (List Json) "outputs").mapM parseArg
+  let attrs ← (← req.getObjValAs? (List Json) "attrs").mapM parseAttr
+  let n : NodeIn String String :=
+    { opType := ← req.getObjValAs? String "op", domain := ← req.getObjValAs? String "domain",
+      version := ← req.getObjValAs? Nat "version", mins := parseMins req,
+      inputs := ins, outputs := outs, attrs := attrs }
+  return nodeJson (emitNode n) (opsetReq n)
+
+def parseVal (j : Json) : Except String Val := do
+  let t ← j.getObjValAs? String "t"
+  match t with
+  | "none" => return .none
+  | "int" => return .int (← j.getObjValAs? Int "v")
+  | "float" => return .float (← j.getObjValAs? Nat "v")
+  | "str" => return .str (← j.getObjValAs? String "v")
+  | "ints" => return .ints (← j.getObjValAs? (List Int) "v")
+  | "floats" => return .floats (← j.getObjValAs? (List Nat) "v")
+  | "strs" => return .strs (← j.getObjValAs? (List String) "v")
+  | "dtype" => return .dtype (← j.getObjValAs? String "v")
+  | _ => return .other (← j.getObjValAs? String "v")
+
+def valJson : Val → Json
+  | .none => Json.mkObj [("t", "none")]
+  | .int i => Json.mkObj [("t", "int"), ("v", toJson i)]
+  | .float b => Json.mkObj [("t", "float"), ("v", toJson b)]
+  | .str s => Json.mkObj [("t", "str"), ("v", s)]
+  | .ints l => Json.mkObj [("t", "ints"), ("v", toJson l)]
+  | .floats l => Json.mkObj [("t", "floats"), ("v", toJson l)]
+  | .strs l => Json.mkObj [("t", "strs"), ("v", toJson l)]
+  | .dtype n => Json.mkObj [("t", "dtype"), ("v", n)]
+  | .other s => Json.mkObj [("t", "other"), ("v", s)]
+
+def parseFieldKind : String → Except String FieldKind
+  | "single" => pure .single | "optional" => pure .optional | "variadic" => pure .variadic
+  | _ => throw "bad field kind"
+
+def parseAttrKind : String → AttrKind
+  | "float" => .float | "int" => .int | "string" => .string | "tensor" => .tensor
+  | "graph" => .graph | "type" => .type | "floats" => .floats | "ints" => .ints
+  | "strings" => .strings | "tensors" => .tensors | "dtype" => .dtype | _ => .unknown
+
+def parseFields (j : Json) : Except String (List (String × FieldKind)) := do
+  let l ← fromJson? (α := List (List String)) j
+  l.mapM fun
+    | [n, k] => do return (n, ← parseFieldKind k)
+    | _ => throw "bad field"
+
+def parseCtor (j : Json) : Except String Ctor := do
+  let cj ← j.getObjVal? "cls"
+  let cls : ClassSig :=
+    { pyName := ← cj.getObjValAs? String "id", base := ← cj.getObjValAs? String "base",
+      opName := ← cj.getObjValAs? String "opName", domain := ← cj.getObjValAs? String "domain",
+      version := ← cj.getObjValAs? Nat "version",
+      inputs := ← parseFields (← cj.getObjVal? "inputs"),
+      outputs := ← parseFields (← cj.getObjVal? "outputs"), attrs := [] }
+  let params ← (← j.getObjValAs? (List Json) "params").mapM fun p => do
+    let d ← match p.getObjVal? "default" with
+      | .ok Json.null => pure none
+      | .ok dj => pure (some (← parseVal dj))
+      | .error _ => pure none
+    return ({ name := ← p.getObjValAs? String "name", kwOnly := ← p.getObjValAs? Bool "kwOnly",
+              kind := .attr, default := d } : Param)
+  let wires ← (← j.getObjValAs? (List Json) "attrWires").mapM fun w => do
+    return ({ field := ← w.getObjValAs? String "field",
+              kind := parseAttrKind (← w.getObjValAs? String "kind"),
+              maybe := ← w.getObjValAs? Bool "maybe", onnxName := ← w.getObjValAs? String "onnxName",
+              param := ← w.getObjValAs? String "param",
+              viaSubgraph := ← w.getObjValAs? Bool "viaSubgraph" } : AttrWire)
+  let iw ← (← j.getObjValAs? (List (List String)) "inputWires").mapM fun
+    | [a, b] => pure (a, b)
+    | _ => throw "bad input wire"
+  return { pyName := ← j.getObjValAs? String "id", cls := cls, params := params, attrWires := wires,
+           inputWires := iw, outVar := .none, ret := .unpack }
+
+def handleCall (req : Json) : Except String Json := do
+  let c ← parseCtor (← req.getObjVal? "ctor")
+  let supJ ← req.getObjVal? "supplied"
+  let supplied : String → Option Val := fun n =>
+    match supJ.getObjVal? n with
+    | .ok v => (parseVal v).toOption
+    | .error _ => none
+  let argJ ← req.getObjVal? "args"
+  let args : String → Arg String := fun n =>
+    match argJ.getObjVal? n with
+    | .ok v => match parseArg v with
+      | .ok a => a
+      | .error _ => .opt none
+    | .error _ => .opt none
+  -- outputs: `_init_output_vars` (every declared output, `nvar` variadic ones), named by field key
+  let nvar ← req.getObjValAs? Nat "nvar"
+  let outs := initOutputs c.cls.outputs nvar
+  let n : NodeIn String Val :=
+    { opType := c.cls.opName, domain := c.cls.domain, version := c.cls.version,
+      mins := parseMins req, inputs := callInputs c args, outputs := outs,
+      attrs := callAttrs c supplied }
+  let o := emitNode n
+  return Json.mkObj [("op", o.opType), ("domain", o.domain), ("inputs", slotsJson o.inputs),
+    ("outputs", slotsJson o.outputs),
+    ("attrs", Json.arr (o.attrs.map fun a => Json.arr #[a.1, valJson a.2]).toArray),
+    ("opset", Json.arr #[(opsetReq n).1, (opsetReq n).2])]
+
+def handle (req : Json) : Json :=
+  match (do
+    let kind ← req.getObjValAs? String "kind"
+    match kind with
+    | "emit" => handleEmit req
+    | "call" => handleCall req
+    | _ => throw "unknown kind") with
+  | .ok j => j
+  | .error e => Json.mkObj [("error", e)]
 
 end Drv.C11
